@@ -37,7 +37,8 @@ def correspondence(ctx):
         m = pipeline.gen_model(r, max_modes=r.choice([2, 3, 4, 5 if thorough else 4]), spin_half=r.choice([None, None, False]))
         M = m.modes()
         symm = r.choice(["default", "default", "ignore", "custom", "custom"])
-        s = pipeline.core_script(m, order=r.below(2), symm=pipeline.custom_integrals(r, m) if symm == "custom" else symm)
+        s = pipeline.core_script(m, order=r.below(2), symm=pipeline.custom_integrals(r, m) if symm == "custom" else symm,
+                                 early=r.chance(1, 3))
         s += ["blockof %d" % r.below(1 << M), "innerof %d" % r.below(1 << M), "blockof %d" % (1 << M), "innerof %d" % ((1 << M) + 1)]
         s += ["dm %s" % pipeline.hx(1.0), "fops"] + ["fop1 quad %d %d" % (r.below(M), r.below(M)) for _ in range(3)]
         scripts.append(s)
@@ -55,7 +56,17 @@ def correspondence(ctx):
             xs = [ws[l] for (l, o, sp) in idx]
         polys = ["%d %s" % (M, " ".join("%s 2 0 %d 1 %d" % (pipeline.val(1.0), i, i) for i in range(M))),
                  "%d %s" % (M, " ".join("%s 2 0 %d 1 %d" % (pipeline.val(x), i, i) for i, x in enumerate(xs)))]
-        s = pipeline.core_script(m, order=0, symm="symm custom %d %s" % (len(polys), " ".join(polys)))
+        if r.chance(1, 2) and M >= 2:
+            # a conserved but NON-additive candidate (product of two or three number operators): must be rejected
+            k = min(M, r.choice([2, 2, 3]))
+            mm = list(range(M))
+            r.shuffle(mm)
+            mm = sorted(mm[:k])
+            if r.chance(1, 2):
+                polys = polys[:1]       # only N next to it: nothing else separates the states it would have to separate
+            polys.append("1 %s %d %s %s" % (pipeline.val(1.0), 2 * k, " ".join("0 %d" % i for i in mm),
+                                             " ".join("1 %d" % i for i in reversed(mm))))
+        s = pipeline.core_script(m, order=0, symm="symm custom %d %s" % (len(polys), " ".join(polys)), early=r.chance(1, 2))
         s += ["dm %s" % pipeline.hx(1.0), "fops"] + ["fop1 quad %d %d" % (r.below(M), r.below(M)) for _ in range(3)]
         scripts.append(s)
         metas.append(("custom", m))
